@@ -56,13 +56,14 @@ type memWire struct {
 	log    *wireLog
 	faults []wireFault
 
-	mu       sync.Mutex
-	cond     chan struct{} // signalled (closed+replaced) when a packet is queued or the source closed
-	queue    [][]byte
-	deadline time.Time
-	srcClose int
-	snkClose int
-	useAfter []string
+	mu        sync.Mutex
+	cond      chan struct{} // signalled (closed+replaced) when a packet is queued or the source closed
+	queue     [][]byte
+	deadline  time.Time
+	srcClose  int
+	snkClose  int
+	useAfter  []string
+	idleReads int // consecutive reads that returned at once with an expired deadline
 	// onWrite, if set, is called for every written packet (outside the lock); scripted routers use
 	// it to schedule replies.
 	onWrite func(pkt []byte, dst netip.AddrPort)
@@ -163,8 +164,19 @@ func (s *memSource) Read(buf []byte) (int, error) {
 			wait = time.Second
 		}
 		if wait <= 0 {
+			s.w.mu.Lock()
+			s.w.idleReads++
+			n := s.w.idleReads
+			s.w.mu.Unlock()
+			if n > wireMaxIdleReads {
+				noteRunaway("more than 200000 reads in a row after the read deadline had passed")
+				return 0, errRunaway
+			}
 			return 0, os.ErrDeadlineExceeded
 		}
+		s.w.mu.Lock()
+		s.w.idleReads = 0
+		s.w.mu.Unlock()
 		tm := time.NewTimer(wait)
 		select {
 		case <-ch:
@@ -207,6 +219,10 @@ func (s *memSource) SetPacketFilter(spec packets.PacketFilterSpec) error {
 
 func (s *memSink) WriteTo(buf []byte, addrPort netip.AddrPort) error {
 	k := s.w.log.hit("write")
+	if k >= wireMaxWrites {
+		noteRunaway("more than 1500 probes written to one handle")
+		return errRunaway
+	}
 	s.w.mu.Lock()
 	if s.w.snkClose > 0 {
 		s.w.useAfter = append(s.w.useAfter, "WriteTo after Close")
